@@ -274,3 +274,24 @@ def _history_clear(t):
         cs += [V.R(cv.a[d, c, c]) == V.R(nv) for d in range(D) for c in range(m)]
         return z3.And(*cs)
     t.prove_paths("cleared_samples_are_forgotten_after_update", ps, goal)
+
+
+@task("C16", "EmpiricalMeanVarModel.__init__[D=3,m=2]")
+def _em_init(t):
+    """A new model holds no sample for any of its design_count designs and remembers its configuration."""
+    nv = t.inp("noise_var", InReal("noise_var"))
+    tm, tv = z3.Bool("track_means"), z3.Bool("track_variances")
+    obj = SObj(cls_ref(EM, "EmpiricalMeanVarModel"))
+    paths = t.run(EM, "EmpiricalMeanVarModel.__init__", [2, 2, nv, 3, tm, tv], self_val=obj)
+    t.no_raise(paths)
+
+    def goal(p):
+        o = find_obj(p.st, obj.oid)
+        f = o.fields
+        ds = f.get("design_samples")
+        ok = (f.get("input_dim") == 2 and f.get("output_dim") == 2 and f.get("design_count") == 3 and isinstance(ds, list) and len(ds) == 3
+              and all(isinstance(a, L.SArr) and a.shape == (0, 2) for a in ds) and len(set(id(a) for a in ds)) == 3)
+        if not ok:
+            return False
+        return z3.And(V.R(f.get("noise_var")) == V.R(nv), V.Bz(f.get("track_means")) == tm, V.Bz(f.get("track_variances")) == tv)
+    t.prove_paths("no_samples_for_any_of_the_design_count_designs_configuration_stored", paths, goal)
